@@ -190,6 +190,10 @@ pub struct Dir {
     pub flush_waker: Option<Waker>,
     /// the link is slow: nothing in flight is delivered while this is set (the harness releases it later)
     pub hold: bool,
+    /// write-behind transport (a conforming user-supplied WebSocket with an output buffer of that many messages): `start_send` only
+    /// stores the message; it is transmitted by `poll_flush` / `poll_close`, or by `poll_ready` when the buffer is full
+    pub wb_cap: Option<usize>,
+    pub wb_buf: VecDeque<Item>,
     /// receiver already got Close/Eof/Err: stream terminated
     pub recv_terminated: bool,
     pub recv_waker: Option<Waker>,
@@ -197,6 +201,18 @@ pub struct Dir {
 }
 
 impl Dir {
+    /// move buffered messages onto the link as far as its capacity allows; true = buffer empty
+    fn wb_flush(&mut self) -> bool {
+        while let Some(front) = self.wb_buf.front() {
+            if self.cap.is_some_and(|c| self.inflight.len() >= c) {
+                break;
+            }
+            let _ = front;
+            let it = self.wb_buf.pop_front().unwrap();
+            self.inflight.push_back(it);
+        }
+        self.wb_buf.is_empty()
+    }
     fn new(cap: Option<usize>) -> Self {
         Dir {
             inflight: VecDeque::new(),
@@ -210,6 +226,8 @@ impl Dir {
             close_done: false,
             flush_waker: None,
             hold: false,
+            wb_cap: None,
+            wb_buf: VecDeque::new(),
             recv_terminated: false,
             recv_waker: None,
             send_waker: None,
@@ -251,6 +269,11 @@ impl Drop for SimWs {
     fn drop(&mut self) {
         let mut l = self.link.0.lock().unwrap();
         let d = &mut l.dir[self.side];
+        if !d.wb_buf.is_empty() && !d.close_done {
+            let n = d.wb_buf.len();
+            d.wb_buf.clear();
+            self.log.push(Ev::Fault(format!("side {} dropped its WebSocket with {n} messages still in its output buffer: never transmitted", self.side)));
+        }
         if d.flush_waits && !d.close_done && !d.inflight.is_empty() {
             let n = d.inflight.len();
             d.inflight.clear();
@@ -277,6 +300,18 @@ impl WebSocket for SimWs {
             return Poll::Ready(Err(ws_err("sink already closed")));
         }
         if d.wedged {
+            d.send_waker = Some(cx.waker().clone());
+            return Poll::Pending;
+        }
+        if let Some(k) = d.wb_cap {
+            if d.wb_buf.len() < k.max(1) {
+                return Poll::Ready(Ok(()));
+            }
+            // buffer full: make room by transmitting
+            d.wb_flush();
+            if d.wb_buf.len() < k.max(1) {
+                return Poll::Ready(Ok(()));
+            }
             d.send_waker = Some(cx.waker().clone());
             return Poll::Pending;
         }
@@ -311,7 +346,11 @@ impl WebSocket for SimWs {
         let lost = d.blackhole;
         self.log.push(Ev::Sent { side: self.side, msg: WMsg::from_message(&item), lost });
         if !lost {
-            d.inflight.push_back(Item::Msg(item));
+            if d.wb_cap.is_some() {
+                d.wb_buf.push_back(Item::Msg(item));
+            } else {
+                d.inflight.push_back(Item::Msg(item));
+            }
         }
         Ok(())
     }
@@ -322,6 +361,10 @@ impl WebSocket for SimWs {
         if d.sink_err {
             self.log.push(Ev::SinkErrorSeen { side: self.side });
             return Poll::Ready(Err(ws_err("sink failed")));
+        }
+        if d.wb_cap.is_some() && !d.wedged && !d.wb_flush() {
+            d.flush_waker = Some(cx.waker().clone());
+            return Poll::Pending;
         }
         if d.wedged || (d.flush_waits && !d.inflight.is_empty()) {
             d.flush_waker = Some(cx.waker().clone());
@@ -336,6 +379,10 @@ impl WebSocket for SimWs {
         if d.sink_err {
             d.sink_closed = true;
             return Poll::Ready(Err(ws_err("sink failed")));
+        }
+        if d.wb_cap.is_some() && !d.wedged && !d.sink_closed && !d.wb_flush() {
+            d.flush_waker = Some(cx.waker().clone());
+            return Poll::Pending;
         }
         if d.wedged || (d.flush_waits && !d.sink_closed && !d.inflight.is_empty()) {
             // the close has to flush first
